@@ -285,7 +285,7 @@ func c14OverlapUnit(ov *c14Overlap, bound int, maxExecs int) *Unit {
 			vrt.WaitGroupWait("harness/c14o", &wg)
 			vrt.Settle("harness/c14o.settle")
 		}
-		cfg := vrt.ExploreCfg{Bound: bound, Menu: menuTSME, Deadline: deadline, MaxExecs: maxExecs,
+		cfg := vrt.ExploreCfg{Bound: capBound(bound), Menu: menuTSME, Deadline: deadline, MaxExecs: maxExecs,
 			Exec: vrt.Config{MapMenu: true, Race: raceMode},
 			Check: func(x *vrt.Exec) []vrt.Violation {
 				var out []vrt.Violation
